@@ -168,6 +168,24 @@ def main(tier: str) -> int:
     if not res.ok:
         run.machinery(f'MailboxSync Ideal configuration fails: {res.violated or res.error}')
         return run.finish()
+    # MOVE and multi-APPEND cut at their lock checkpoints, with faults (MailboxFault.tla): with
+    # each command one critical section (Devs = {}) conservation holds in every state; with the
+    # two sections per MOVE / one per message that the tree has (the two open known findings,
+    # named deviations) TLC must find the limbo / half-applied states - if it did not, the
+    # model would not be describing the findings the fault enumeration below exhibits
+    r = tlc.run_tlc('MailboxFault.tla', 'MailboxFault_ideal.cfg', workers=16, timeout=1500)
+    run.add_model(r, 'MailboxFault_ideal.cfg')
+    if not r.ok:
+        run.machinery(f'MailboxFault_ideal.cfg fails: {r.violated or r.error}')
+        return run.finish()
+    r = tlc.run_tlc('MailboxFault.tla', 'MailboxFault_asis.cfg', workers=16, timeout=1500)
+    run.add_model(r, 'MailboxFault_asis.cfg')
+    open_now = set(run.known.open)
+    if {'DictMoveWindow', 'MultiAppendOneByOne'} & open_now and r.ok:
+        run.machinery('MailboxFault_asis.cfg passes although the tree\'s split critical sections '
+                      '(open findings) are modelled: the model does not show them')
+        return run.finish()
+    run.notes['fault_model'] = {'ideal': 'holds', 'asis_violates': r.violated}
     traces, meta = [], []
     ncmd = 45 if tier == 'quick' else 500
     for i in range(ncmd):
